@@ -33,7 +33,7 @@ impl DataGen {
         };
         Self {
             seed: rng.next_u64(),
-            kind: rng.below(7) as u8,
+            kind: rng.below(8) as u8,
             basis_blocks,
             basis_tail,
             edits: rng.range(0, 4) as u32,
@@ -100,6 +100,23 @@ impl DataGen {
                 }
             }
             4 => {}
+            7 => {
+                // the source is a REARRANGEMENT of the basis's own blocks (two blocks swapped, or one
+                // block overwritten with a copy of another): same size, no new byte anywhere — the
+                // delta is all copies, yet the files differ
+                let nb = blen / bs.max(1);
+                if nb >= 2 {
+                    let (i, mut j) = (r.usize_below(nb), r.usize_below(nb));
+                    if i == j {
+                        j = (i + 1) % nb;
+                    }
+                    let (a, b) = (basis[i * bs..i * bs + bs].to_vec(), basis[j * bs..j * bs + bs].to_vec());
+                    source[i * bs..i * bs + bs].copy_from_slice(&b);
+                    if r.coin() {
+                        source[j * bs..j * bs + bs].copy_from_slice(&a);
+                    }
+                }
+            }
             5 => {
                 // shift by k bytes so matches are found only after k slides
                 let k = match r.below(4) {
